@@ -116,6 +116,41 @@ Fixpoint returns (m : mode) (ops : list op) : list Z :=
   end.
 
 (* ---------- raw request ---------- *)
+(* the parts of a URI reference: fragment after the first '#', query after the first '?' before it *)
+Definition uri_nofrag (uri : bytes) : bytes := fst (split_first 35 uri).
+Definition uri_frag (uri : bytes) : option bytes := snd (split_first 35 uri).
+Definition uri_path (uri : bytes) : bytes := fst (split_first 63 (uri_nofrag uri)).
+Definition uri_rawquery (uri : bytes) : option bytes := snd (split_first 63 (uri_nofrag uri)).
+
+(* every '%' is followed by two hex digits *)
+Fixpoint escapes_ok (s : bytes) : bool :=
+  match s with
+  | [] => true
+  | c :: r => if c =? 37 then match r with a :: b :: r' => ishex a && ishex b && escapes_ok r' | _ => false end
+              else escapes_ok r
+  end.
+(* a URI that can be sent at all: no control byte before the fragment, well-formed escapes in path and fragment *)
+Definition uri_wellformed (uri : bytes) : bool :=
+  negb (existsb is_ctl (uri_nofrag uri)) && escapes_ok (uri_path uri) &&
+  match uri_frag uri with Some f => escapes_ok f | None => true end.
+
+(* the path on the request line / in :path.  A path made of characters that may stand in a path
+   (unreserved, sub-delims, ':' '@' '/' '[' ']', well-formed %XX) is sent byte for byte: no escape is
+   decoded, no hex digit changes case.  Any other path (space, double quote, '<', non-ASCII, ...) is
+   percent-decoded and re-encoded as a whole by net/url.  An empty path is "/". *)
+Definition path_on_wire (p : bytes) : bytes :=
+  or_slash (if valid_encoded EPath p then p
+            else match unescape false p with Some t => escape EPath t | None => p end).
+
+(* the query on the wire: without listed parameters whatever follows the first '?' of the URI, untouched;
+   with parameters the merged multimap in url.Values.Encode form (sorted keys, key=value joined by '&',
+   both query-escaped) - a lone '?' only if the URI ended in its only '?' *)
+Definition query_on_wire (uri : bytes) (vals : option hmap) : bytes :=
+  match vals with
+  | None => match uri_rawquery uri with Some q => 63 :: q | None => [] end
+  | Some m => if opt_bytes_eqb (uri_rawquery uri) [] || nonempty (values_encode m) then 63 :: values_encode m else []
+  end.
+
 Section RequestSpec.
   Variable compress : N -> bytes -> bytes.
   (* the text an encoded query parameter contributes *)
@@ -123,7 +158,7 @@ Section RequestSpec.
     if e_b64 e then b64url (payload_of compress (e_value e)) else payload_of compress (e_value e).
   Definition enc_values_of (k : bytes) (es : list encq) : list bytes :=
     flat_map (fun e => if bytes_eqb k (e_name e) then [enc_text e] else []) es.
-  (* the query string written in the URI itself *)
+  (* the (decoded) query parameters written in the URI itself *)
   Definition uri_query (uri : bytes) : hmap :=
-    parse_query (match snd (split_first 63 uri) with Some q => q | None => [] end).
+    parse_query (match uri_rawquery uri with Some q => q | None => [] end).
 End RequestSpec.
